@@ -216,4 +216,11 @@ theorem isEqualFull_operands {A B : Coins} (hA : Sorted A) (hB : Sorted B) :
   · rfl
   · simp [sortCoins_of_sorted hA, sortCoins_of_sorted hB]
 
+theorem val_zero_of_all_zero {cs : Coins} (h : ∀ c ∈ cs, c.amount.toInt = 0) (d : Denom) : val cs d = 0 := by
+  induction cs with
+  | nil => rfl
+  | cons c cs ih =>
+    rw [val_cons, ih (fun x hx => h x (List.mem_cons_of_mem _ hx)), h c List.mem_cons_self]
+    simp
+
 end GnoVerif.C18
